@@ -485,6 +485,20 @@ inline void Sweep::attributes_captures_units()
       add_node("Parameter_list::add_member", p0, Category_code::Parameter, [p0, req, tp = &pt, this](Ck& c) { c.same("name", &p0->name(), static_cast<const Name*>(P.idents[4])); c.type_is(*p0, *tp, "given"); c.eq("level", (long long)p0->level(), 2); c.same("home_region", &p0->home_region(), &req->parameters().region()); });
       auto* cl = lex.make_class(P.R()); auto* b0 = cl->declare_base(*P.a_class);
       add_node("Class::declare_base", b0, Category_code::Base_type, [b0, this](Ck& c) { c.type_is(*b0, *P.a_class, "given"); c.eq("position", (long long)b0->position(), 0); c.same("lexical_region", &b0->lexical_region(), &b0->home_region()); c.eq("specifiers", (long long)b0->specifiers(), 0); }); }
+   // a base list some of whose bases are user-defined types that have not been given a name (yet): such a base has no name to
+   // report (logic_error), the named ones after it do; the list's scope is then asked for each of them by name
+   {  auto* cl = lex.make_class(P.R());
+      const Type* bts[] = { P.a_class, lex.make_class(P.R()), lex.make_union(P.R()), P.a_class, lex.make_enum(P.R(), Enum::Kind::Scoped), &L.int_type() };
+      std::vector<const Base_type*> bs; for (auto t : bts) bs.push_back(cl->declare_base(*t));
+      for (std::size_t i = 0; i < bs.size(); ++i)
+         add_node(i == 1 || i == 2 || i == 4 ? "Class::declare_base(user-defined type without a name)" : "Class::declare_base(named type, after unnamed ones)", bs[i], Category_code::Base_type, [b = bs[i], t = bts[i], i, unnamed = (i == 1 || i == 2 || i == 4)](Ck& c) {
+            c.type_is(*b, *t, "given"); c.eq("position", (long long)b->position(), (long long)i);
+            if (unnamed) c.absent("name", [&] { (void)&b->name(); }); else c.same("name", &b->name(), &t->name()); });
+      add_node("class whose base list holds unnamed types", cl, Category_code::Class, [cl, bs, names = std::vector<const Name*> { &P.a_class->name(), &L.int_type().name(), P.idents[0] }](Ck& c) {
+         c.eq("bases.size", (long long)cl->bases().size(), (long long)bs.size());
+         // look-up by name in the base list's own scope: found for the named bases, absent for a name nobody bears; never a crash
+         auto& sc = bs[0]->home_region().bindings();
+         for (auto nm : names) { try { auto o = sc[*nm]; (void)o.is_valid(); ++c.checks; } catch (const std::logic_error&) { ++c.checks; } } }); }
    // the translation unit
    add_other("Translation_unit", &unit, [u = &unit, nt = &L.namespace_type()](Ck& c) {
       auto& g = u->global_namespace(); c.type_is(g, *nt, "namespace: the kind type `namespace`"); c.eq("global_namespace.region.global", g.region().global(), true);
